@@ -103,6 +103,11 @@ def np_isclose(I, st, args, kw, node):
     used("np.isclose(a, b, rtol, atol): |a - b| <= atol + rtol * |b| (exact arithmetic)")
     rtol = _kw(args, kw, 2, "rtol", 1e-05)
     atol = _kw(args, kw, 3, "atol", 1e-08)
+    args = list(args)
+    for k_ in (0, 1):       # an optional operand: None is not a number (TypeError) - obligation, then the value
+        if isinstance(args[k_], lib.Opt):
+            I.safety(st, lib.znot(args[k_].is_none), "operand-not-None", node)
+            args[k_] = args[k_].val
 
     def f(x, y):
         x, y = to_real(x), to_real(y)
